@@ -132,6 +132,9 @@ CHECKS = {
  'C43': (['gmp', 'gmpxx', 'boostmp'], 'differential monitor across three builds that differ only in INTEGER_CLASS: the same exact programs are executed in each and every statement outcome (status, exception type, tree, string) compared',
          'Programs of 6-10 exact computations on 31-400 bit operands around limb boundaries: gcd family, six division flavours, modular inverse / power, integer roots, perfect powers, primality, combinatorial functions, jacobi / kronecker, rational chains with powers, expand, UIntPoly arithmetic, integer to rational powers, printing.',
          'FLINT is not installed, so that backend is not covered; absolute correctness of the gmp build is judged by C05 / C09 / C21 / C32.', 'DESIGN.md 3/C43'),
+ 'C42': (['asan'], 'differential monitor inside one process: every C function of cwrapper.h is called on handles holding the same objects as the C++ call next to it (result tree or error code vs exception), wrapped in a try/catch that reports exceptions crossing the C boundary; container scripts vs Python list / set / dict models; Expression operators vs core functions; ASan+UBSan with assertions not throwing (a C caller links a release build)',
+         '52 function wrappers, in-place use, subs2, set wrappers, parse / str / number setters, eq / neq / hash, free_symbols, get_args on operands incl. 0, oo, zoo, nan, floats; scripts of 6-14 container operations incl. out-of-range indices; 13 Expression operators.',
+         'dense / sparse matrix, ntheory and lambda / LLVM visitor parts of the C API are not driven.', 'DESIGN.md 3/C42'),
 }
 
 def main():
